@@ -186,8 +186,11 @@ impl<T: FileReadWriteVolatile> FileReadWriteVolatile for &mut T {
 // vm_memory::ByteValued: plain old data whose memory image is `sbytes`
 pub trait ByteValued: Sized + Copy {
     spec fn sbytes(&self) -> Seq<u8>;
-    fn as_slice(&self) -> (r: &[u8]) ensures r@ == self.sbytes();
+    spec fn ssize() -> nat;
+    fn as_slice(&self) -> (r: &[u8]) ensures r@ == self.sbytes(), r@.len() == Self::ssize();
 }
+pub broadcast axiom fn axiom_sbytes_len<T: ByteValued>(x: T)
+    ensures #[trigger] x.sbytes().len() == T::ssize();
 
 // ---- specification vocabulary
 pub proof fn lemma_ios_concat_append(a: Seq<IoSlice<'_>>, b: Seq<IoSlice<'_>>)
@@ -494,5 +497,260 @@ def unit(root='/repo'):
         Raw(SPEC),
         Group("impl<'a, S: BitmapSlice + Default> FuseDevWriter<'a, S> {", [new]),
         Group("impl<'a, S: BitmapSlice> FuseDevWriter<'a, S> {", [split] + writer_fns(root) + [Raw(STD_WRITE_ALL)]),
-    ]
+    ] + refinement_items()
     return Unit('fusedevw', items, preludes=['base.rs'], generic_tags={'devwrite': ['C04']})
+
+
+# =====================================================================================================================================
+# REFINE (C01): the abstract Writer of prelude/transport.rs - whose contracts unit `server` ASSUMES - is refined by FuseDevWriter.
+#
+# The abstract struct, its spec functions and `commit_bytes` are COPIED from the prelude text (type renamed AbsWriter); every contract
+# `requires R ensures E` of an abstract operation is turned MECHANICALLY into two spec functions abs_<op>_req(pre, args) / abs_<op>_ens(pre,
+# post, args, r) (`old(self)` -> pre, `final(self)` -> post; clause text otherwise unchanged).  For every operation a wrapper
+#       refine_<op>(w, args, dl, Ghost(a0)) -> (r, Ghost(a1))
+#           requires rel(a0, old(w)), link(a0, old(w).fd), abs_<op>_req(a0, args)
+#           ensures  rel(a1, final(w)), abs_<op>_ens(a0, a1, args, r), log_grew(old(dl).log, final(dl).log, fd, a0.emitted, a1.emitted)
+# whose body is the ONE call of the real (verified) function is VERIFIED: the abstract precondition implies the real one, the real
+# postcondition implies the abstract one, and the device log grows by exactly the byte strings the abstract writer records as emitted,
+# one device write each.  `rel` = same length / capacity / mode, and the same BYTES when buffered; `link` interprets the device
+# capability at the server level: a device write of b is allowed when [once], [noreply], [frame] and [emit] hold for b.
+# Preconditions a wrapper needs IN ADDITION to the abstract contract are tagged [C01.refine.gap.*] - they are the places where the
+# abstract model promises more than the real writer delivers.
+
+def _split_clauses(txt):
+    """top-level comma split; `::<..>` (turbofish) counts as a bracket"""
+    out, cur, d, ang, i = [], '', 0, 0, 0
+    while i < len(txt):
+        c = txt[i]
+        if c in '([{':
+            d += 1
+        elif c in ')]}':
+            d -= 1
+        elif c == '<' and (ang or txt[max(0, i - 2):i] == '::'):
+            ang += 1
+        elif c == '>' and ang and txt[i - 1] not in '-=':
+            ang -= 1
+        if c == ',' and d == 0 and ang == 0:
+            out.append(cur)
+            cur = ''
+        else:
+            cur += c
+        i += 1
+    out.append(cur)
+    return [re.sub(r'\s+', ' ', c).strip() for c in out if c.strip()]
+
+
+def abstract_writer_text():
+    """(copied items, generated spec functions, [op names]) from vx/prelude/transport.rs"""
+    t = open(os.path.join(os.path.dirname(os.path.dirname(os.path.abspath(__file__))), 'prelude', 'transport.rs')).read()
+    msk = X.mask(t)
+
+    def ren(s):
+        s = re.sub(r"\bWriter<", 'AbsWriter<', s)
+        return s.replace('transport::Result<', 'Result<')
+    # the model of IoSlice / ios_concat must be the one this unit verifies against
+    m = re.search(r'pub open spec fn ios_concat.*?\n\}', t, re.S)
+    if not m or X.norm_ws(m.group(0)) not in X.norm_ws(PRE_COMMON):
+        raise X.ExtractError('REFINE: ios_concat of prelude/transport.rs differs from the one of unit fusedevw')
+    m = re.search(r"pub struct Writer<'a, S> \{.*?\n\}", t, re.S)
+    if not m:
+        raise X.ExtractError('REFINE: abstract Writer struct not found in prelude/transport.rs')
+    copied = [ren(m.group(0))]
+    for name in ('emit_ok', 'may_reply', 'is_notify'):
+        mm = re.search(r'pub uninterp spec fn %s\([^)]*\) -> bool;' % name, t)
+        if not mm:
+            raise X.ExtractError('REFINE: %s not found in prelude/transport.rs' % name)
+        copied.append(mm.group(0))
+    mm = re.search(r'pub const MAX_REPLY_CAP: usize = [^;]*;', t)
+    copied.append(mm.group(0))
+    mm = re.search(r"pub open spec fn commit_bytes<'a, S>.*?\n\}", t, re.S)
+    if not mm:
+        raise X.ExtractError('REFINE: commit_bytes not found')
+    commit_bytes = ren(mm.group(0))
+    j = t.index("impl<'a, S: BitmapSlice> Writer<'a, S> {")
+    ob = t.index('{', j)
+    cb = X.match_close(msk, ob)
+    body, bmsk = t[ob + 1:cb], msk[ob + 1:cb]
+    specs = []
+    for sm in re.finditer(r'pub open spec fn \w+', bmsk):
+        k = bmsk.index('{', sm.start())
+        specs.append(body[sm.start():X.match_close(bmsk, k) + 1])
+    copied.append("impl<'a, S: BitmapSlice> AbsWriter<'a, S> {\n    " + '\n    '.join(ren(s) for s in specs) + '\n}')
+    copied.append(commit_bytes)
+    gen, ops = [], []
+    for fm in re.finditer(r'pub fn (\w+)\s*(<[^>(]*>)?\s*\(\s*(&mut self|&self)\s*(?:,\s*([^)]*?))?\)\s*->\s*\(r:\s*(.*?)\)\s*(?=requires\b|ensures\b|\{)', bmsk, re.S):
+        name, gens, recv = fm.group(1), fm.group(2), fm.group(3)
+        params = body[fm.start(4):fm.end(4)].strip() if fm.group(4) else ''
+        ret = body[fm.start(5):fm.end(5)].strip()
+        e = bmsk.index('{ unimplemented!() }', fm.end())
+        hdr = re.sub(r'//[^\n]*', '', body[fm.end():e])
+        rq = re.search(r'\brequires\b(.*?)(?=\bensures\b|$)', hdr, re.S)
+        en = re.search(r'\bensures\b(.*)$', hdr, re.S)
+
+        def conv(cl):
+            cl = cl.replace('old(self)', 'pre').replace('final(self)', 'post')
+            cl = re.sub(r'\bself\b', 'pre', cl)
+            return ren(cl)
+        reqs = [conv(c) for c in _split_clauses(rq.group(1))] if rq else []
+        enss = [conv(c) for c in _split_clauses(en.group(1))] if en else []
+        g = "<'a, S: BitmapSlice%s>" % ((', ' + gens.strip()[1:-1]) if gens else '')
+        ps = ren(params)
+        sep = ', ' if ps else ''
+        gen.append("pub open spec fn abs_%s_req%s(pre: &AbsWriter<'a, S>%s%s) -> bool {\n    %s\n}" % (
+            name, g, sep, ps, '\n    '.join('&&& (%s)' % c for c in reqs) if reqs else 'true'))
+        post = '' if recv == '&self' else "post: &AbsWriter<'a, S>, "
+        gen.append("pub open spec fn abs_%s_ens%s(pre: &AbsWriter<'a, S>, %s%s%sr: %s) -> bool {\n    %s\n}" % (
+            name, g, post, ps, sep, ren(ret), '\n    '.join('&&& (%s)' % c for c in enss) if enss else 'true'))
+        ops.append(name)
+    want = ['bytes_written', 'available_bytes', 'write', 'write_all', 'write_obj', 'write_vectored', 'split_at', 'commit']
+    if ops != want:
+        raise X.ExtractError('REFINE: operations of the abstract Writer are %r, the wrappers cover %r' % (ops, want))
+    return copied, gen, ops
+
+
+REFINE_HAND = r'''
+// [frame] of the server level: its definition (header length / unique / error sign) plays no role in the refinement
+pub uninterp spec fn wire_ok(id: int, b: Seq<u8>) -> bool;
+// ---- abstraction relation
+pub open spec fn rel<'a, S: BitmapSlice>(a: &AbsWriter<'a, S>, w: &FuseDevWriter<'a, S>) -> bool {
+    a.buf@.len() == w.buf@.len() && (w.buffered ==> a.buf@ == w.buf@) && a.cap@ == w.cap() && a.buffered@ == w.buffered
+}
+pub open spec fn link<'a, S: BitmapSlice>(a: &AbsWriter<'a, S>, fd: RawFd) -> bool {
+    forall|b: Seq<u8>| a.emit_pre_once() && may_reply(a.id@) && wire_ok(a.id@, b) && emit_ok(a.id@, b) ==> #[trigger] dev_write_ok(fd, b)
+}
+pub open spec fn dev_writes(fd: RawFd, e: Seq<Seq<u8>>) -> Seq<DevWrite> { Seq::new(e.len(), |i: int| DevWrite { fd: fd, bytes: e[i] }) }
+// the device log grows by exactly the byte strings the abstract writer records as emitted, ONE device write on `fd` for each
+pub open spec fn log_grew(l0: Seq<DevWrite>, l1: Seq<DevWrite>, fd: RawFd, e0: Seq<Seq<u8>>, e1: Seq<Seq<u8>>) -> bool {
+    e0.len() <= e1.len() && e1.take(e0.len() as int) =~= e0 && l1 =~= l0 + dev_writes(fd, e1.skip(e0.len() as int))
+}
+pub open spec fn abs_other<'b, 'a, S: BitmapSlice>(ao: &'b Option<AbsWriter<'a, S>>) -> Option<&'b AbsWriter<'a, S>> {
+    match ao { Some(x) => Some(x), None => None }
+}
+// the second writer handed to commit: the abstract one stands for a FuseDev writer with the same bytes; a virtio-fs writer (which the
+// real commit ignores) has no abstract counterpart
+pub open spec fn rel_other<'a, S: BitmapSlice>(ao: &Option<AbsWriter<'a, S>>, other: Option<&Writer<'a, S>>) -> bool {
+    match other { Some(Writer::FuseDev(cw)) => ao is Some && ao->Some_0.buf@ == cw.buf@, _ => ao is None }
+}
+pub proof fn lemma_log_same(l: Seq<DevWrite>, fd: RawFd, e: Seq<Seq<u8>>) ensures log_grew(l, l, fd, e, e)
+{ assert(e.skip(e.len() as int) =~= Seq::<Seq<u8>>::empty()); assert(dev_writes(fd, e.skip(e.len() as int)) =~= Seq::<DevWrite>::empty()); }
+pub proof fn lemma_log_push(l: Seq<DevWrite>, fd: RawFd, e: Seq<Seq<u8>>, b: Seq<u8>) ensures log_grew(l, l.push(DevWrite { fd: fd, bytes: b }), fd, e, e.push(b))
+{ assert(e.push(b).skip(e.len() as int) =~= seq![b]); assert(dev_writes(fd, seq![b]) =~= seq![DevWrite { fd: fd, bytes: b }]); assert(e.push(b).take(e.len() as int) =~= e); }
+
+pub fn refine_bytes_written<'a, S: BitmapSlice>(w: &FuseDevWriter<'a, S>, Ghost(a0): Ghost<AbsWriter<'a, S>>) -> (r: usize)
+    requires rel(&a0, w), abs_bytes_written_req(&a0),
+    ensures abs_bytes_written_ens(&a0, r), // [C01.refine.bytes_written]
+{ w.bytes_written() }
+pub fn refine_available_bytes<'a, S: BitmapSlice>(w: &FuseDevWriter<'a, S>, Ghost(a0): Ghost<AbsWriter<'a, S>>) -> (r: usize)
+    requires rel(&a0, w), abs_available_bytes_req(&a0),
+    ensures abs_available_bytes_ens(&a0, r), // [C01.refine.available_bytes]
+{ broadcast use axiom_capacity_bound; w.available_bytes() }
+
+pub fn refine_write<'a, S: BitmapSlice>(w: &mut FuseDevWriter<'a, S>, data: &[u8], Tracked(dl): Tracked<&mut DevLog>, Ghost(a0): Ghost<AbsWriter<'a, S>>)
+    -> (res: (io::Result<usize>, Ghost<AbsWriter<'a, S>>))
+    requires rel(&a0, old(w)), link(&a0, old(w).fd), abs_write_req(&a0, data),
+    ensures rel(&res.1@, final(w)), // [C01.refine.write.rel]
+            abs_write_ens(&a0, &res.1@, data, res.0), // [C01.refine.write.contract]
+            log_grew(old(dl).log, final(dl).log, old(w).fd, a0.emitted@, res.1@.emitted@), // [C01.refine.write.device]
+{
+    let r = w.write(data, Tracked(dl));
+    let ghost a1 = AbsWriter { id: a0.id, buf: Ghost(if r is Ok { a0.buf@ + data@ } else { a0.buf@ }), cap: a0.cap, buffered: a0.buffered, primary: a0.primary,
+        emitted: Ghost(if r is Ok && !a0.buffered@ { a0.emitted@.push(data@) } else { a0.emitted@ }), p: PhantomData };
+    proof { lemma_log_same(old(dl).log, old(w).fd, a0.emitted@); lemma_log_push(old(dl).log, old(w).fd, a0.emitted@, data@); }
+    (r, Ghost(a1))
+}
+pub fn refine_write_all<'a, S: BitmapSlice>(w: &mut FuseDevWriter<'a, S>, data: &[u8], Tracked(dl): Tracked<&mut DevLog>, Ghost(a0): Ghost<AbsWriter<'a, S>>)
+    -> (res: (io::Result<()>, Ghost<AbsWriter<'a, S>>))
+    requires rel(&a0, old(w)), link(&a0, old(w).fd), abs_write_all_req(&a0, data),
+    ensures rel(&res.1@, final(w)), // [C01.refine.write_all.rel]
+            abs_write_all_ens(&a0, &res.1@, data, res.0), // [C01.refine.write_all.contract]
+            log_grew(old(dl).log, final(dl).log, old(w).fd, a0.emitted@, res.1@.emitted@), // [C01.refine.write_all.device]
+{
+    let r = w.write_all(data, Tracked(dl));
+    let ghost a1 = AbsWriter { id: a0.id, buf: Ghost(if r is Ok { a0.buf@ + data@ } else { a0.buf@ }), cap: a0.cap, buffered: a0.buffered, primary: a0.primary,
+        emitted: Ghost(if r is Ok && !a0.buffered@ && data@.len() > 0 { a0.emitted@.push(data@) } else { a0.emitted@ }), p: PhantomData };
+    proof { lemma_log_same(old(dl).log, old(w).fd, a0.emitted@); lemma_log_push(old(dl).log, old(w).fd, a0.emitted@, data@); }
+    (r, Ghost(a1))
+}
+pub fn refine_write_obj<'a, S: BitmapSlice, T: ByteValued>(w: &mut FuseDevWriter<'a, S>, val: T, Tracked(dl): Tracked<&mut DevLog>, Ghost(a0): Ghost<AbsWriter<'a, S>>)
+    -> (res: (io::Result<()>, Ghost<AbsWriter<'a, S>>))
+    requires rel(&a0, old(w)), link(&a0, old(w).fd), abs_write_obj_req(&a0, val),
+    ensures rel(&res.1@, final(w)), // [C01.refine.write_obj.rel]
+            abs_write_obj_ens(&a0, &res.1@, val, res.0), // [C01.refine.write_obj.contract]
+            log_grew(old(dl).log, final(dl).log, old(w).fd, a0.emitted@, res.1@.emitted@), // [C01.refine.write_obj.device]
+{
+    broadcast use axiom_sbytes_len;
+    let r = w.write_obj(val, Tracked(dl));
+    let ghost a1 = AbsWriter { id: a0.id, buf: Ghost(if r is Ok { a0.buf@ + val.sbytes() } else { a0.buf@ }), cap: a0.cap, buffered: a0.buffered, primary: a0.primary,
+        emitted: a0.emitted, p: PhantomData };
+    proof { lemma_log_same(old(dl).log, old(w).fd, a0.emitted@); }
+    (r, Ghost(a1))
+}
+pub fn refine_write_vectored<'a, S: BitmapSlice>(w: &mut FuseDevWriter<'a, S>, bufs: &[IoSlice<'_>], Tracked(dl): Tracked<&mut DevLog>, Ghost(a0): Ghost<AbsWriter<'a, S>>)
+    -> (res: (io::Result<usize>, Ghost<AbsWriter<'a, S>>))
+    requires rel(&a0, old(w)), link(&a0, old(w).fd), abs_write_vectored_req(&a0, bufs),
+             // NOT in the abstract contract: the real code adds the slice lengths up in a usize
+             ios_concat(bufs@).len() <= usize::MAX, // [C01.refine.gap.write_vectored.total_representable]
+    ensures rel(&res.1@, final(w)), // [C01.refine.write_vectored.rel]
+            abs_write_vectored_ens(&a0, &res.1@, bufs, res.0), // [C01.refine.write_vectored.contract]
+            log_grew(old(dl).log, final(dl).log, old(w).fd, a0.emitted@, res.1@.emitted@), // [C01.refine.write_vectored.device]
+{
+    let r = w.write_vectored(bufs, Tracked(dl));
+    let ghost a1 = AbsWriter { id: a0.id, buf: Ghost(if r is Ok { a0.buf@ + ios_concat(bufs@) } else { a0.buf@ }), cap: a0.cap, buffered: a0.buffered, primary: a0.primary,
+        emitted: Ghost(if r is Ok && !a0.buffered@ && bufs@.len() > 0 { a0.emitted@.push(ios_concat(bufs@)) } else { a0.emitted@ }), p: PhantomData };
+    proof { lemma_log_same(old(dl).log, old(w).fd, a0.emitted@); lemma_log_push(old(dl).log, old(w).fd, a0.emitted@, ios_concat(bufs@)); }
+    (r, Ghost(a1))
+}
+pub fn refine_split_at<'a, S: BitmapSlice>(w: &mut FuseDevWriter<'a, S>, offset: usize, Ghost(a0): Ghost<AbsWriter<'a, S>>)
+    -> (res: (Result<FuseDevWriter<'a, S>>, Ghost<AbsWriter<'a, S>>, Ghost<Result<AbsWriter<'a, S>>>))
+    requires rel(&a0, old(w)), abs_split_at_req(&a0, offset),
+             // NOT in the abstract contract: after an UNBUFFERED write the real buffer holds the right number of bytes but not the data
+             // (set_len over memory that was never written), and split_at makes both halves buffered
+             old(w).buffered || old(w).buf@.len() == 0, // [C01.refine.gap.split_at.after_unbuffered_write]
+    ensures rel(&res.1@, final(w)), // [C01.refine.split_at.rel]
+            abs_split_at_ens(&a0, &res.1@, offset, res.2@), // [C01.refine.split_at.contract]
+            res.0 is Ok <==> res.2@ is Ok,
+            res.0 is Ok ==> rel(&res.2@->Ok_0, &res.0->Ok_0) && res.0->Ok_0.fd == old(w).fd, // [C01.refine.split_at.rel]
+{
+    let r = w.split_at(offset);
+    let ghost lo = if a0.buf@.len() > offset { a0.buf@.subrange(0, offset as int) } else { a0.buf@ };
+    let ghost hi = if a0.buf@.len() > offset { a0.buf@.subrange(offset as int, a0.buf@.len() as int) } else { Seq::<u8>::empty() };
+    let ghost a1 = if r is Ok { AbsWriter { id: a0.id, buf: Ghost(lo), cap: Ghost(offset as nat), buffered: Ghost(true), primary: Ghost(a0.primary@ && offset != 0), emitted: a0.emitted, p: PhantomData } } else { a0 };
+    let ghost ar: Result<AbsWriter<'a, S>> = if r is Ok {
+        Ok(AbsWriter { id: a0.id, buf: Ghost(hi), cap: Ghost((a0.cap@ - offset) as nat), buffered: Ghost(true), primary: Ghost(a0.primary@ && offset == 0), emitted: Ghost(Seq::empty()), p: PhantomData })
+    } else { Err(r->Err_0) };
+    proof {
+        if r is Ok {
+            let p = w.buf@; let c = r->Ok_0.buf@;
+            assert(p + c =~= old(w).buf@);
+            assert(p =~= (p + c).subrange(0, p.len() as int));
+            assert(c =~= (p + c).subrange(p.len() as int, (p + c).len() as int));
+            assert(a0.buf@ =~= old(w).buf@);
+            assert(p =~= lo); assert(c =~= hi);
+        }
+    }
+    (r, Ghost(a1), Ghost(ar))
+}
+pub fn refine_commit<'a, S: BitmapSlice>(w: &mut FuseDevWriter<'a, S>, other: Option<&Writer<'a, S>>, Tracked(dl): Tracked<&mut DevLog>,
+                                          Ghost(a0): Ghost<AbsWriter<'a, S>>, Ghost(ao): Ghost<Option<AbsWriter<'a, S>>>)
+    -> (res: (io::Result<usize>, Ghost<AbsWriter<'a, S>>))
+    requires rel(&a0, old(w)), link(&a0, old(w).fd), rel_other(&ao, other), abs_commit_req(&a0, abs_other(&ao)),
+    ensures rel(&res.1@, final(w)), // [C01.refine.commit.rel]
+            abs_commit_ens(&a0, &res.1@, abs_other(&ao), res.0), // [C01.refine.commit.contract]
+            log_grew(old(dl).log, final(dl).log, old(w).fd, a0.emitted@, res.1@.emitted@), // [C01.refine.commit.device]
+{
+    proof { assert(old(w).buffered ==> commit_bytes(&a0, abs_other(&ao)) =~= old(w).buf@ + other_bytes(other)); }
+    let r = w.commit(other, Tracked(dl));
+    let ghost cbytes = commit_bytes(&a0, abs_other(&ao));
+    let ghost a1 = AbsWriter { id: a0.id, buf: a0.buf, cap: a0.cap, buffered: a0.buffered, primary: a0.primary,
+        emitted: Ghost(if r is Ok && a0.buffered@ && cbytes.len() > 0 { a0.emitted@.push(cbytes) } else { a0.emitted@ }), p: PhantomData };
+    proof { lemma_log_same(old(dl).log, old(w).fd, a0.emitted@); lemma_log_push(old(dl).log, old(w).fd, a0.emitted@, cbytes); }
+    (r, Ghost(a1))
+}
+'''
+
+
+def refinement_items():
+    copied, gen, ops = abstract_writer_text()
+    return [Raw('// ===== REFINE (C01): abstract Writer copied from prelude/transport.rs (renamed AbsWriter)\n' + '\n'.join(copied)),
+            Raw('// ===== REFINE: abstract contracts as spec functions (generated from the prelude text)\n' + '\n'.join(gen)),
+            Raw(REFINE_HAND)]
